@@ -20,8 +20,16 @@ Literals == { [e |-> <<48>>, u |-> <<49, 46, 48, 126, 114, 99, 49>>, r |-> <<>>]
 \* upstream parts with hyphens and colons inside (legal when a revision / an epoch is written): "1-1" vs "1", "1:0-1" ...
 HyUps == {<<49>> \o s : s \in SeqsUpTo({48, 49, HYPHEN, COLON}, 2)}
 HyVers == {[e |-> <<48>>, u |-> u, r |-> r] : u \in HyUps, r \in {<<>>, <<49>>}}
+\* epochs at the boundaries of the machine integer types (the field is an unsigned machine word; the parser stops
+\* at 2^63-1, a caller may set more): 0, 1, 2^31-1, 2^31, 2^32, 2^63-1, 2^63, 2^64-1
+Dg(s) == [i \in 1..Len(s) |-> 48 + s[i]]
+BigEpochs == {<<48>>, <<49>>, Dg(<<2,1,4,7,4,8,3,6,4,7>>), Dg(<<2,1,4,7,4,8,3,6,4,8>>), Dg(<<4,2,9,4,9,6,7,2,9,6>>),
+              Dg(<<9,2,2,3,3,7,2,0,3,6,8,5,4,7,7,5,8,0,7>>), Dg(<<9,2,2,3,3,7,2,0,3,6,8,5,4,7,7,5,8,0,8>>),
+              Dg(<<1,8,4,4,6,7,4,4,0,7,3,7,0,9,5,5,1,6,1,5>>)}
+BigEpochVers == {[e |-> e, u |-> u, r |-> <<>>] : e \in BigEpochs, u \in {<<49>>, <<50>>}}
 CmpVecs == SetToSeq({[k |-> "cmp", a |-> a, b |-> b] : a \in Vers \cup Literals, b \in Vers \cup Literals})
            \o SetToSeq({[k |-> "cmp", a |-> a, b |-> b] : a \in HyVers, b \in HyVers})
+           \o SetToSeq({[k |-> "cmp", a |-> a, b |-> b] : a \in BigEpochVers, b \in BigEpochVers})
 
 \* C03: every string over the alphabet
 ParseVecs == SetToSeq({[k |-> "parse", s |-> s] : s \in Strings})
